@@ -28,6 +28,7 @@ import Flax.Proofs.GraphFirst
 import Flax.Proofs.GraphPopFirst
 import Flax.Proofs.GraphPopAny
 import Flax.Proofs.GraphPopOrder
+import Flax.Proofs.GraphPytree
 import Flax.Proofs.GraphUpdateValues
 
 namespace Flax.C03
@@ -141,6 +142,26 @@ theorem iso_alias_back {h h' : Heap} {r r' : PVal} {φ : Addr → Option Addr} (
   rw [hp] at e2; cases e2
   cases hv with
   | ref ha => exact ⟨_, e1, ha⟩
+
+/-! ## generic pytree containers (NamedTuple, OrderedDict, registered dataclasses)
+
+`_flatten_pytree` visits the children sorted by key and records each key's declared position;
+`_unflatten_pytree` sorts them back by that position (`pyFlatten` / `pyUnflatten`, Proofs/GraphPytree.lean). -/
+
+/-- **unflatten ∘ flatten is the identity on a generic pytree node for every declared order** — every
+permutation of the sorted key order, 3-cycles included: each child comes back under its own field -/
+theorem pytree_unflatten_flatten_id {α : Type} (decl : List (Key × α)) (hn : keysNodup decl) :
+    pyUnflatten (pyFlatten decl).1 (pyFlatten decl).2 = decl :=
+  Flax.Graph.pytree_unflatten_flatten_id decl hn
+
+/-- applying the permutation in the inverse direction is wrong on a 3-cycle: `Affine(weight, bias, child)` -/
+theorem pytree_inverse_permutation_wrong :
+    let decl : List (Key × Nat) := [(.str "weight", 1), (.str "bias", 2), (.str "child", 3)]
+    pyUnflatten (pyFlatten decl).1 (pyFlatten decl).2 = decl ∧
+    pyUnflattenInv (pyFlatten decl).1 (pyFlatten decl).2 ≠ decl :=
+  Flax.Graph.pytree_inverse_permutation_wrong
+
+example : keysNodup ([(.str "weight", 1), (.str "bias", 2), (.str "child", 3)] : List (Key × Nat)) := by decide
 
 /-! ## leaves come out sorted; merging works in any argument order -/
 
